@@ -160,6 +160,26 @@ def build_scaled_daqmx_file(case, data, variant=0):
     return {"segs": [seg]}
 
 
+NAMES = [("grp", "c"), ("Dev1/Measurements", "Dev1/ai0"), ("it's", "a/b/c"), ("g/", "c'")]
+
+
+def rename(fd, gname, cname):
+    """the same file with other names for the group and the scaled channel (slashes and quotes in names must not
+    matter for the lookup of group- and file-level scaling properties)"""
+    def q(x):
+        return "'" + x.replace("'", "''") + "'"
+    m = {G: "/" + q(gname), C: "/" + q(gname) + "/" + q(cname), Z: "/" + q(gname) + "/" + q("z")}
+    for seg in fd["segs"]:
+        for key in ("listed", "objs"):
+            for o in seg[key]:
+                o["p"] = m.get(o["p"], o["p"])
+        if "daqmx_values" in seg:
+            seg["daqmx_values"] = {m.get(k, k): v for k, v in seg["daqmx_values"].items()}
+    if "_values" in fd:
+        fd["_values"] = {m.get(k, k): v for k, v in fd["_values"].items()}
+    return fd
+
+
 def encode_with_values(fd, seed):
     """encode, forcing the channel values given in fd['_values'] (the encoder's generator is bypassed)"""
     forced = fd.pop("_values", {})
@@ -203,11 +223,13 @@ def replay_scaling_case(case):
         fd = build_scaled_daqmx_file(c, rec["data"], variant)
     else:
         fd = build_scaled_file(c, rec["data"], variant, with_zero_channel=False)
+    gname, cname = NAMES[(h // 5 + seed) % len(NAMES)]
+    rename(fd, gname, cname)
     e = encode_with_values(fd, seed)
     fails = []
     n = 0
     kinds = sorted(set(s["kind"] for s in c["scales"]))
-    bundle = {"case": c, "expect": exp, "variant": variant, "seed": seed, "hex": e.data.hex()}
+    bundle = {"case": c, "expect": exp, "variant": variant, "seed": seed, "hex": e.data.hex(), "names": [gname, cname]}
 
     def sig(kind, **kw):
         s = {"kind": kind, "scale_kinds": kinds, "raw": c["raw"], "effective_level":
@@ -225,7 +247,7 @@ def replay_scaling_case(case):
     for mode in ("eager", "lazy"):
         try:
             f = TdmsFile.read(io.BytesIO(e.data)) if mode == "eager" else TdmsFile.open(io.BytesIO(e.data))
-            ch = f["grp"]["c"]
+            ch = f[gname][cname]
             before = rawnums(ch)
             raw_snapshot = (b"".join(ch.raw_scaler_data[i].tobytes() for i in (0, 1)) if daq else ch.raw_data.tobytes()) \
                 if mode == "eager" else None
